@@ -17,7 +17,9 @@ def enc(v, _depth=0):
     if v is None or isinstance(v, (bool, str)):
         return v
     if isinstance(v, int):
-        return v if abs(v) < 2 ** 63 else {'$int': str(v)}
+        if abs(v) < 2 ** 63:
+            return v
+        return {'$int': str(v) if v.bit_length() < 10000 else hex(v)}      # str() of a huge int is refused by Python
     if isinstance(v, float):
         if math.isnan(v) or math.isinf(v):
             return {'$f': repr(v)}
@@ -77,7 +79,7 @@ class Codec(object):
             if '$f' in j:
                 return float(j['$f'])
             if '$int' in j:
-                return int(j['$int'])
+                return int(j['$int'], 0)
             if '$c' in j:
                 return complex(j['$c'][0], j['$c'][1])
             if '$tuple' in j:
@@ -333,4 +335,46 @@ class WholeFloats(Sub):
                     return fail('%r gives %r but with the same whole numbers written as floats %r%s gives %r' % (
                         base_text, base, text, (' with %s' % dict((k, v) for k, v in vars.items() if k.startswith('xf')))
                         if how == 'var' else '', out), base, out)
+        return None
+
+
+class Siblings(Sub):
+    """Functions of one family must not leak into each other: a memo, scratch table or default-argument dict shared
+    by several functions makes whichever runs first decide what the others return for equal arguments.  For every
+    group of templates and every argument tuple, all templates are evaluated on that tuple in ONE pristine process
+    (in the listed order, and in the reverse order, so every ordered pair of functions occurs); each outcome must be
+    bit-identical to the outcome of the same formula as the ONLY evaluation of a pristine process."""
+    rule = ('groups of function templates x shared argument tuples x {listed order, reverse order}: every formula of the '
+            'sequence, evaluated in one pristine process, must give exactly the outcome it gives as the only evaluation '
+            'of a pristine process; non-trivial = all')
+    min_cases = 4
+    min_nontrivial = 4
+    GROUPS = []         # ([templates with {0} {1} ..], [argument tuples])
+    MODULE = None       # set NEEDS_ZYGOTE = True in the property module
+
+    def cases(self, tier, unit):
+        for gi, (tmpls, tuples) in enumerate(self.GROUPS):
+            for args in tuples:
+                for order in ('fwd', 'rev'):
+                    yield [gi, list(args), order]
+
+    def check(self, env, case):
+        from . import zygote
+        gi, args, order = case
+        tmpls = self.GROUPS[gi][0]
+        forms = [t.format(*[(a[1:] if isinstance(a, str) and a.startswith('={') else lit(a)) for a in args]) for t in tmpls]
+        if order == 'rev':
+            forms = forms[::-1]
+        env.nt()
+        got = zygote.call('hxverif.pristine', 'run', {'formulas': forms})
+        env.evals += len(forms)
+        refs = env.__dict__.setdefault('_sibling_refs', {})
+        for i, f in enumerate(forms):
+            if f not in refs:
+                refs[f] = zygote.call('hxverif.pristine', 'run', {'formulas': [f]})[0]
+                env.evals += 1
+            env.note('same' if i else 'first')
+            if got[i] != refs[f]:
+                return fail('%s gives %r when evaluated after %s in the same process; as the only evaluation of a fresh '
+                            'process it gives %r' % (f, got[i], ', '.join(forms[:i]) or 'nothing', refs[f]), refs[f], got[i])
         return None
